@@ -1254,6 +1254,11 @@ def check_no_err_between(rep, fl, rule="R06.5"):
 
 def check_C06(rep, fl):
     check_contexts(rep, fl)
+    # the policy side of the pairings: a key is charged only by add() (never a key that is not being stored), and
+    # every key add() un-charges is reported in the victim list (so that the processor removes its entry)
+    import props_policy
+    props_store.keep_rules(rep, fl, props_policy.check_C01, {"R01.3"})
+    props_store.keep_rules(rep, fl, props_policy.check_C07, {"R07.6"})
     check_handle_item_pairing(rep, fl)
     check_remove_pair(rep, fl)
     check_no_err_between(rep, fl)
